@@ -192,14 +192,20 @@ def mon_guards(lines, c, want):
                 if ("C03" in want or "C02" in want or "C04" in want) and defined(c["defstate"], "enter"):
                     if seq != [("enter", exp_dest)]:
                         return (ends[0][0] if ends else call.end), "activation entered %s but the surviving request names %d" % (seq, exp_dest)
+                if "C11" in want and c["history"] and call.obs is not None and call.op != "replayEnter" and parse_t(call.obs.f.get("prev")) != survivor:
+                    return call.obs_idx, "after activation previousTransition() reports %s, the redirect of the initial entry was %s" % (call.obs.f.get("prev"), survivor)
             elif call.op in PROCESSING:
                 if survivor is None:
                     if seq and ("C02" in want or "C03" in want):
                         return ends[0][0], "no request survived its guards, yet %s ran" % seq
+                    if "C11" in want and c["history"] and call.obs is not None and parse_t(call.obs.f.get("prev")) is not None and (rounds or call.op in ("update", "react")):
+                        return call.obs_idx, "no transition was applied, yet previousTransition() reports %s" % call.obs.f.get("prev")
                 elif defined(c["defstate"], "enter") and defined(c["defstate"], "exit") and defined(c["defstate"], "reenter"):
                     exp = [("reenter", a0)] if survivor[1] == a0 else [("exit", a0), ("enter", survivor[1])]
                     if seq != exp and ("C02" in want or "C03" in want or "C04" in want):
                         return (ends[0][0] if ends else call.end), "surviving request %s should give %s, the machine did %s" % (survivor, exp, seq)
+                    if "C11" in want and c["history"] and call.obs is not None and parse_t(call.obs.f.get("prev")) != survivor:
+                        return call.obs_idx, "previousTransition() reports %s, the transition applied was %s" % (call.obs.f.get("prev"), survivor)
                     if "C07" in want or "C11" in want:
                         for idx, l in ends:
                             if l.meth in ("enter", "reenter") and parse_t(l.f.get("cur")) != survivor:
@@ -348,7 +354,7 @@ def mon_C07_payload(lines, c):
             t = parse_t(l.f.get("prev"))
             if t and t[2] in ("CORRUPT", "MISALIGNED"): return idx, "payload of previousTransition() is %s" % t[2]
     return None
-mon_C07_payload.applies = lambda c: c["payload"] and not c["plans"]
+mon_C07_payload.applies = lambda c: not c["plans"]
 
 # ------------------------------------------------------------------------------------------------
 def mon_plans(lines, c, want):
@@ -517,6 +523,24 @@ def mon_C11(lines, c):
 mon_C11.applies = lambda c: c["history"] and c["inj_state"] == 0 and c["inj_root"] == 0 and c["defstate"] == FULL and (c["defroot"] == FULL or not c["head"]) and not c["plans"]
 
 # ------------------------------------------------------------------------------------------------
+def mon_C12_lifecycle(lines, c):
+    """load() performs exactly the exit/enter, reenter, final exit or initial enter needed"""
+    obs = {}
+    for call in calls(lines):
+        if call.op == "loadfrom" and call.obs is not None:
+            j = int(call.args[0]); src = obs.get(j); dst = obs.get(call.inst)
+            if src is not None and dst is not None:
+                a_s = None if src.f["on"] == "0" else int(src.f["active"]); a_l = None if dst.f["on"] == "0" else int(dst.f["active"])
+                if a_s is None and not c["manual"]: a_s = a_l
+                exp = [] if (a_s is None and a_l is None) else [("reenter", a_l)] if a_s == a_l else \
+                      ([("exit", a_l)] if a_l is not None else []) + ([("enter", a_s)] if a_s is not None else [])
+                got = [(l.meth, who_id(l.who)) for _, l in call.ev if l.kind == "cb" and l.rec == "own" and l.who != "R" and l.meth in T.LIFE]
+                if got != exp:
+                    return call.start, "load() of a machine in state %s into one in state %s ran %s, exactly %s is needed" % (a_s, a_l, got, exp)
+        if call.obs is not None: obs[call.inst] = call.obs
+    return None
+mon_C12_lifecycle.applies = lambda c: c["serial"] and defined(c["defstate"], "enter") and defined(c["defstate"], "exit") and defined(c["defstate"], "reenter")
+
 def mon_C12(lines, c):
     last = {}
     for idx, l in enumerate(lines):
@@ -671,8 +695,8 @@ def mon_C17(lines, c):
 mon_C17.applies = lambda c: True
 
 MONITORS = {"C01": [mon_C01], "C02": [mon_C02], "C03": [mon_C03], "C04": [mon_C04], "C05": [mon_C05], "C06": [mon_C06, mon_C06_guards],
-            "C07": [mon_C07, mon_C07_payload], "C08": [mon_C08], "C09": [mon_C09], "C10": [mon_C10], "C11": [mon_C11],
-            "C12": [mon_C12], "C15": [mon_C15], "C16": [mon_C16], "C17": [mon_C17]}
+            "C07": [mon_C07, mon_C07_payload], "C08": [mon_C08], "C09": [mon_C09], "C10": [mon_C10], "C11": [mon_C11, mon_C07_payload],
+            "C12": [mon_C12, mon_C12_lifecycle], "C15": [mon_C15], "C16": [mon_C16], "C17": [mon_C17]}
 
 def run_monitors(pid, trace_text, c):
     lines = T.parse(trace_text)
